@@ -263,6 +263,9 @@ func judgeFile(t h.TB, sub string, c interface{}, fset *token.FileSet, af *ast.F
 		if ps[i].pos.IsValid() && qs[i].pos.IsValid() {
 			P, Q, names = append(P, ps[i].pos), append(Q, qs[i].pos), append(names, ps[i].path)
 		}
+		if !ps[i].pos.IsValid() && qs[i].pos.IsValid() && !neverSet(ps[i].path) {
+			h.Fail(t, sub, c, "%s: %s has no position in the restored ast, but the printed text has that token (at %d)", name, ps[i].path, qs[i].pos)
+		}
 		if ps[i].pos.IsValid() && !qs[i].pos.IsValid() {
 			h.Fail(t, sub, c, "%s: %s has a position (%d) in the restored ast, but the printed text has no such token", name, ps[i].path, ps[i].pos)
 		}
@@ -308,6 +311,12 @@ func judgeFile(t h.TB, sub string, c interface{}, fset *token.FileSet, af *ast.F
 			}
 		}
 	}
+}
+
+// neverSet: the three token positions the restorer of the pinned tree leaves unset (measured over
+// the whole corpus); every other token of the printed text must have a position in the restored ast.
+func neverSet(path string) bool {
+	return strings.HasSuffix(path, ".RangeStmt.Range") || strings.HasSuffix(path, ".ChanType.Arrow") || strings.HasSuffix(path, ".EmptyStmt.Semicolon")
 }
 
 var directiveRE = regexp.MustCompile(`^//(line |extern |export |[a-z0-9]+:[a-z0-9])`)
